@@ -376,6 +376,9 @@ def key_walk(ctx, c, dom, steps, der_ok=True):
     sk = ecdsa.SigningKey.from_secret_exponent(d, c, hf)
     cenc = "compressed" if dom.pbytes() > 1 else "hybrid"     # on a 1-byte field the compressed form has the raw length (ambiguous by construction)
     pool = [("sk", sk), ("vk", sk.verifying_key), ("vk", ecdsa.VerifyingKey.from_string(sec1.encode_point(dom, Q, cenc), c, hf))]
+    # keys built from point objects, as the low-level constructor allows: a legacy Point and a PointJacobi that carry no order
+    pool.append(("vk", ecdsa.VerifyingKey.from_public_point(Point(c.curve, Q[0], Q[1]), c, hf)))
+    pool.append(("vk", ecdsa.VerifyingKey.from_public_point(lib.mk_jac(c.curve, Q, rng.randrange(2, dom.p), None), c, hf)))
     msg = b"c19 key history"
     dg = hf(msg).digest()
     e = ecdsa_ref.digest_to_e(dom, dg, True)
